@@ -11,7 +11,14 @@ pub enum Pat {
     Distinct,
     DupPair,
     AllEqual,
+    /// messages of the first and the last signer are equal (a non adjacent repeat)
+    DupFirstLast,
+    /// the last pair is the first pair again: same signer, same message, its signature aggregated twice
+    RepeatFirstPair,
+    /// the second pair is the first pair again
+    RepeatFirstPairAdjacent,
 }
+pub const PATS: [Pat; 6] = [Pat::Distinct, Pat::DupPair, Pat::AllEqual, Pat::DupFirstLast, Pat::RepeatFirstPair, Pat::RepeatFirstPairAdjacent];
 
 #[derive(Copy, Clone, Debug, PartialEq, Eq, Hash, Serialize, Deserialize)]
 pub enum Edit {
@@ -75,7 +82,7 @@ fn nth_perm(n: usize, mut k: usize) -> Vec<usize> {
 
 impl<C: Suite> M06<C> {
     pub fn new(tier: Tier, _seed: u64) -> Self {
-        let ns: Vec<usize> = if tier.thorough() { (2..=NMAX).collect() } else { vec![2, 3, 4, 5, 8] };
+        let ns: Vec<usize> = if tier.thorough() { (2..=NMAX).collect() } else { vec![2, 3, 4, 5, 8, 16, 17] };
         let nk = ns.iter().max().unwrap() + 1;
         let sks: Vec<SecretKey<C>> = (0..nk).map(|i| SecretKey::<C>::from_hash(format!("c06-key-{}", i))).collect();
         let pks = sks.iter().map(|s| s.public_key()).collect();
@@ -96,21 +103,27 @@ impl<C: Suite> M06<C> {
             _c: PhantomData,
         }
     }
-    fn msg_of(pat: Pat, i: usize) -> Vec<u8> {
+    /// signer of list position i (the repeat patterns use signer 0 twice)
+    fn signer(pat: Pat, n: usize, i: usize) -> usize {
+        match pat {
+            Pat::RepeatFirstPair if i == n - 1 => 0,
+            Pat::RepeatFirstPairAdjacent if i == 1 => 0,
+            _ => i,
+        }
+    }
+    fn msg_at(pat: Pat, n: usize, i: usize) -> Vec<u8> {
         match pat {
             Pat::Distinct => own_msg(i),
             Pat::DupPair => own_msg(if i <= 1 { 0 } else { i }),
             Pat::AllEqual => own_msg(0),
+            Pat::DupFirstLast => own_msg(if i == n - 1 { 0 } else { i }),
+            Pat::RepeatFirstPair | Pat::RepeatFirstPairAdjacent => own_msg(Self::signer(pat, n, i)),
         }
     }
-    fn sig_of(&self, s: Scheme, pat: Pat, i: usize) -> Signature<C> {
-        let which = match pat {
-            Pat::Distinct => 0,
-            Pat::DupPair => (i == 1) as usize,
-            Pat::AllEqual => 1,
-        };
-        // signer 0's own message is message 0
-        self.sigs[s.idx()][i][if i == 0 { 0 } else { which }]
+    fn sig_at(&self, s: Scheme, pat: Pat, n: usize, i: usize) -> Signature<C> {
+        let k = Self::signer(pat, n, i);
+        let over_msg0 = Self::msg_at(pat, n, i) == own_msg(0);
+        self.sigs[s.idx()][k][if k == 0 { 0 } else { over_msg0 as usize }]
     }
     fn use_reference(&self, n: usize, edit: &Option<Edit>) -> bool {
         if n <= 8 {
@@ -136,7 +149,10 @@ impl<C: Suite> Model for M06<C> {
         let mut v = vec![St::From(vec![])];
         for s in SCHEMES {
             for &n in &self.ns {
-                for pat in [Pat::Distinct, Pat::DupPair, Pat::AllEqual] {
+                for pat in PATS {
+                    if n < 3 && matches!(pat, Pat::DupFirstLast | Pat::RepeatFirstPair | Pat::RepeatFirstPairAdjacent) {
+                        continue;
+                    }
                     v.push(St::List { s, n, pat, edit: None });
                 }
             }
@@ -233,7 +249,7 @@ impl<C: Suite> Model for M06<C> {
             }
             St::List { s, n, pat, edit } => {
                 let (s, n, pat) = (*s, *n, *pat);
-                let sigs: Vec<Signature<C>> = (0..n).map(|i| self.sig_of(s, pat, i)).collect();
+                let sigs: Vec<Signature<C>> = (0..n).map(|i| self.sig_at(s, pat, n, i)).collect();
                 let agg = match guard(|| AggregateSignature::<C>::from_signatures(&sigs)) {
                     Ok(Ok(a)) => a,
                     r => {
@@ -241,7 +257,15 @@ impl<C: Suite> Model for M06<C> {
                         return;
                     }
                 };
-                let mut list: Vec<(PublicKey<C>, Vec<u8>)> = (0..n).map(|i| (self.pks[i], Self::msg_of(pat, i))).collect();
+                // the aggregate is the plain group sum of its parts (repeated parts counted as often as they occur)
+                {
+                    let mut sum = SgP::<C>::identity();
+                    for sg in &sigs {
+                        sum += *sg.as_raw_value();
+                    }
+                    o.expect(&format!("C06:aggregate-is-sum:{}:{}:{:?}", g, s.name(), pat), agg == mk_agg_sig::<C>(s, sum), "group sum of all parts", "differs");
+                }
+                let mut list: Vec<(PublicKey<C>, Vec<u8>)> = (0..n).map(|i| (self.pks[Self::signer(pat, n, i)], Self::msg_at(pat, n, i))).collect();
                 let foreign = self.pks[self.pks.len() - 1];
                 let mut cls = "honest".to_string();
                 if let Some(e) = edit {
@@ -343,5 +367,5 @@ pub fn models(tier: Tier, seed: u64) -> Vec<Box<dyn DynModel>> {
 pub fn describe(tier: Tier, r: &mut Report) {
     r.rule = "list-edit machine: initial states = honest aggregate over (scheme, n, message pattern in {distinct, one duplicated pair, all equal}); one action edits the verification list (every permutation for n<=4, reverse/rotate/swaps above; alter message i, alter key i, drop i, re-add i for every i; add a foreign pair; swap the messages of signers i,j for all i<j when n<=6, adjacent above); from_signatures is a sequence machine over all scheme sequences of length <= 3. Decisions are compared with the reference CoreAggregateVerify + Basic's distinct-message rule and with the decision table of the property".into();
     r.deviation_bound_completed = "1 edit per list; sequences of length 3 for from_signatures".into();
-    r.alphabet.insert("n".into(), serde_json::json!(if tier.thorough() { "every n in 2..=64 (reference on every state for n<=8, on the honest list and end-position edits above)" } else { "n in {2,3,4,5,8}, reference on every state" }));
+    r.alphabet.insert("n".into(), serde_json::json!(if tier.thorough() { "every n in 2..=64 (reference on every state for n<=8, on the honest list and end-position edits above)" } else { "n in {2,3,4,5,8,16,17}, reference on every state for n<=8" }));
 }
